@@ -83,7 +83,8 @@ def random_pairs(r, n, maxlen):
     for _ in range(n):
         alpha = list(range(97, 97 + r.choice((1, 2, 2, 3, 4, 26))))
         if r.random() < 0.25:
-            alpha = r.choice(([233, 252], [97, 233], [26085, 26412, 35486], [97, 128512, 233], [65, 97, 196, 228]))
+            alpha = r.choice(([233, 252], [97, 233], [26085, 26412, 35486], [97, 128512, 233], [65, 97, 196, 228],
+                              [101, 769, 233], [8486, 937, 107, 8490], [4352, 4449, 44032]))     # canonically equivalent spellings
         la = r.randint(0, maxlen)
         a = [r.choice(alpha) for _ in range(la)]
         c = r.random()
@@ -153,7 +154,8 @@ def run():
     chk.add_tlc(res, "StringScript", "every clause-respecting script over binary strings keeps at most LCS characters; LCS sane")
     pairs = []
     # characters of 1, 2, 3 and 4 bytes in UTF-8: the script must not depend on how a character is encoded
-    for alpha, mlen in (({97, 98}, bin_len), ({97, 98, 99}, tern_len), ({233, 26085}, 4), ({97, 233, 128512}, 3)):
+    for alpha, mlen in (({97, 98}, bin_len), ({97, 98, 99}, tern_len), ({233, 26085}, 4), ({97, 233, 128512}, 3),
+                        ({101, 769, 233}, 3)):      # e, combining acute, precomposed e-acute: three different characters
         cfg = tlc.cfg_text(spec="GenSpec", constants={"Alphabet": alpha, "MaxLen": mlen}, invariants=["Emit"])
         res = tlc.run_tlc("StringScriptGen", cfg, workers=1, timeout=900, name="StringScriptGen")
         got = [p for p in res.printed if isinstance(p, list) and len(p) == 2]
